@@ -223,8 +223,36 @@ def rule_D(ctx):
         options.append(('two edges, distances %s / %s the radius' % (r1, r2), ['e1', 'e2'], {'e1': r1, 'e2': r2}))
     n_cases = 0
     bad = None
+    # the optional switches of the function (a debug dump of the kept candidates, progress output) do not change the candidates
+    class _Sink(orders.PyStub):
+        def write(self, s_):
+            if not isinstance(s_, str):
+                raise TypeError('write() argument must be str')
+            return len(s_)
+
+        def close(self):
+            pass
+
+        def __enter__(self):
+            return self
+
+        def __exit__(self, *a_):
+            return False
+
+    class _Wkt(orders.PyStub):
+        def __init__(self, obs, *a_, **k_):
+            self.obs = obs
+
+        def toWKT(self):
+            return 'LINESTRING(...)'
+    funcs.update({'open': lambda *a_, **k_: _Sink(), 'Obs': lambda p_, *a_: Tag('observation at', p_), 'Track': _Wkt, 'progressbar': lambda x_, **k_: x_})
+    pairs_ = [(a_, b_) for a_ in options for b_ in options[:3]] + [(b_, a_) for a_ in options[3:] for b_ in options[:1]]
+    switch_names = [p_ for p_ in gp[5:] if p_ in ('debug', 'verbose')]
+    runs_ = [(o0, o1, {}) for o0, o1 in pairs_]
+    for sw in switch_names:
+        runs_ += [(o0, o1, {sw: True}) for o0, o1 in pairs_[3:15]]
     try:
-        for o0, o1 in [(a_, b_) for a_ in options for b_ in options[:3]] + [(b_, a_) for a_ in options[3:] for b_ in options[:1]]:
+        for o0, o1, switches in runs_:
             if bad is not None:
                 break
             glob.clear()
@@ -241,6 +269,7 @@ def rule_D(ctx):
             net = Net(answers)
             del hmms[:]
             args = {gp[0]: [trs['T1'], trs['T2']], gp[1]: net, gp[2]: 7.0, gp[3]: 3.0, gp[4]: RADIUS}
+            args.update(switches)
             orders.make_func(g.node, funcs)(**args)
             n_cases += 1
             if len(hmms) != 2 or any(len(h.calls) != 1 or h.calls[0][2] is None for h in hmms):
@@ -270,6 +299,8 @@ def rule_D(ctx):
                     gset = set(got)
                     sentinel = (pos, -1, -1, -1)
                     case = {'track': tname, 'observation': k, 'neighbourhood': op[0], 'candidates the decoder sees': [repr(c_) for c_ in got]}
+                    if switches:
+                        case['switches'] = dict(switches)
                     if gset - {sentinel} - must - may or not must <= gset:
                         wrong = sorted(repr(c_) for c_ in (gset - {sentinel} - must - may))
                         missing = sorted(repr(c_) for c_ in (must - gset))
